@@ -27,7 +27,7 @@ def extensible_nodes(t, path=()):
             yield from extensible_nodes(at, path + (('cext', i),))
 
 
-def extend(gen, t, steps):
+def extend(gen, t, steps, groups=False):
     """apply `steps` random legal extension steps; returns (V2 type, number of steps applied)"""
     t2 = copy.deepcopy(t)
     rng = gen.rng
@@ -45,10 +45,23 @@ def extend(gen, t, steps):
             if not m['opt'] and m['default'] is None:
                 m['opt'] = True      # additions a newer version appends must be omissible for old values
             node['ext'].append(m)
+            if groups and rng.random() < 0.4:
+                # the new component comes as a version-bracket group [[ ... ]] (possibly with a second member)
+                i = len(node['ext']) - 1
+                if rng.random() < 0.5:
+                    used.add(name)
+                    name2 = next(n for n in ['n1', 'n2', 'n3', 'n4', 'n5', 'n6', 'n7', 'n8', 'n9', 'n10', 'n11', 'n12', 'n13'] if n not in used)
+                    m2 = gen.member(gen.o.max_depth - 1, addition=True, name=name2)
+                    if not m2['opt'] and m2['default'] is None:
+                        m2['opt'] = True
+                    node['ext'].append(m2)
+                node['groups'] = list(node.get('groups') or []) + [(i, len(node['ext']))]
         elif k == 'choice':
             used = {n for n, _ in node['root'] + node['ext']}
             name = next(n for n in ['k1', 'k2', 'k3', 'k4', 'k5', 'k6'] if n not in used)
             node['ext'].append((name, gen.type(gen.o.max_depth - 1)))
+            if groups and rng.random() < 0.3:
+                node['groups'] = list(node.get('groups') or []) + [(len(node['ext']) - 1, len(node['ext']))]
         elif k == 'enum':
             vals = [v for _, v in node['root'] + node['ext']]
             names = {n for n, _ in node['root'] + node['ext']}
@@ -59,6 +72,34 @@ def extend(gen, t, steps):
             node['ext_range'] = (node['lo'] - rng.choice([0, 1, 100]), node['hi'] + rng.choice([1, 200, 70000]))
         done += 1
     return t2, done
+
+
+def add_groups(rng, t, p=0.35):
+    """mark random runs of extension additions of SEQUENCE / CHOICE nodes as version-bracket groups `[[ ... ]]`
+    (in place).  SEQUENCE: only runs whose members are all OPTIONAL / DEFAULT (a group then is present iff one of its
+    members is, and the flat value dictionaries of the generator stay valid)."""
+    k = t['k']
+    if k in ('seq', 'choice') and t['ext'] and not t.get('groups') and rng.random() < p:
+        n = len(t['ext'])
+        groups, i = [], 0
+        while i < n:
+            if rng.random() < 0.5:
+                j = min(n, i + rng.choice([1, 2, 2, 3]))
+                if k == 'choice' or all(m['opt'] or m['default'] is not None for m in t['ext'][i:j]):
+                    groups.append((i, j))
+                i = j
+            else:
+                i += 1
+        if groups:
+            t['groups'] = groups
+    if k in ('seq', 'set'):
+        for m in t['root'] + (t['ext'] or []):
+            add_groups(rng, m['t'], p)
+    elif k in ('seqof', 'setof'):
+        add_groups(rng, t['elem'], p)
+    elif k == 'choice':
+        for _, a in t['root'] + (t['ext'] or []):
+            add_groups(rng, a, p)
 
 
 def project(t1, t2, v):
